@@ -23,7 +23,7 @@ CHECK = {
              "sample_without_replacement / sample_with_replacement / weighted (explicit and default-seeded rng, pinned): size == count, sorted, "
              "members of the input, distinct (without replacement), weight > 0 (weighted; weights contain zeros, at least one positive). "
              "sample_from_ball, d in 1..50, radius 1e-6..1e6, centre norm <= 1e3, 8 draws per case: ||x-x0||_2 (long double) <= r(1+1e-12) + "
-             "4 eps ||x0|| sqrt(d). gboost::sampler_t in its 5 modes, 3 rounds per case: same oracles, count within 1 of ratio*n. "
+             "4 eps ||x0|| sqrt(d). gboost::sampler_t in its 5 modes, 3 rounds per case on the SAME sampler object with the losses / gradients rotated among the training samples between rounds (the zero-weight samples change): same oracles, count within 1 of ratio*n. "
              "Non-trivial: n not divisible by folds or n < 2 folds (splitters); count > 0 and (weights contain a zero | count < n | with "
              "replacement) (sampling); d >= 2 and centre != 0 (ball); ratio*n >= 1 and a sampling mode (gboost). Distinct = distinct serialised "
              "cases (64-bit hash); the two exhaustive sub-checks have only 374 / 748 distinct cases by construction."),
